@@ -10,7 +10,7 @@
    bad, feature lists with any children, stream errors, any element, garbage,
    with or without leading white space, ending anywhere), the scripted outcomes
    of the other features and the observed map-iteration choices. *)
-From XV Require Import lib.Bytes gen.NegTables gen.C02Restart C02.Model C02.Frame C02.Phase C02.Adv C02.Proofs.
+From XV Require Import lib.Bytes gen.NegTables gen.C02Restart C02.Model C02.Frame C02.Phase C02.Adv C02.Inter C02.Proofs.
 
 (* In clear text the session writes nothing but a stream header followed by at
    most one STARTTLS request: what it wrote before a TLS layer was installed is
@@ -100,6 +100,37 @@ Theorem C02_established_features_from_tls :
 Proof. exact established_features_from_tls. Qed.
 Print Assumptions C02_established_features_from_tls.
 
+(* The same for Session.In() (s.in.Info): once a TLS layer has been installed and
+   its handshake has run, the stream id, version, xml:lang and content name
+   space the session reports are each zero or the value of that attribute in a
+   stream header consumed after the switch, hence in a header of the TLS-layer
+   script: an attribute the protected header omits does not keep the value the
+   clear-text header gave it.  For every configuration, whatever the outcome.
+   (The one state excluded by the second premise — layer installed, handshake
+   pending — is a final state only when the Ready bit was set before the
+   restart; C02_ready_implies_tls shows that an admitted configuration never
+   ends there.) *)
+Theorem C02_info_from_protected_stream_only :
+  forall tee c fv bits clear tls outs choices,
+  let r := run tee c fv bits clear tls outs choices in
+  switched (trace r) = true -> m_hs (r_state r) = false ->
+  info_from (headers_of (ins_of (after_switch (trace r)))) (m_info (r_state r)) /\
+  info_from (headers_of tls) (m_info (r_state r)).
+Proof. exact info_from_protected_stream_only. Qed.
+Print Assumptions C02_info_from_protected_stream_only.
+
+(* ... on every established session of an admitted configuration, where moreover
+   from/to are the addresses the session was created with. *)
+Theorem C02_established_info_from_tls :
+  forall tee c fv bits clear tls outs choices,
+  c02_config c = true -> c02_bits bits = true ->
+  let r := run tee c fv bits clear tls outs choices in
+  r_class r = ROk ->
+  info_from (headers_of tls) (m_info (r_state r)) /\
+  n_from (m_info (r_state r)) = c_loc c /\ n_to (m_info (r_state r)) = c_orig c.
+Proof. exact established_info_from_tls. Qed.
+Print Assumptions C02_established_info_from_tls.
+
 (* One StartTLS(nil) feature value used for any number of sessions, one after
    the other: every handshake of session i is given the domain of session i's
    own address, whatever happened in the sessions before. *)
@@ -109,6 +140,43 @@ Theorem C02_servername_is_own_domain :
           ss (run_sessions None ss).
 Proof. exact servername_is_own_domain. Qed.
 Print Assumptions C02_servername_is_own_domain.
+
+(* The same when the sessions OVERLAP: the captured variable is global state and
+   the sessions take turns, one negotiator call at a time, in any order
+   (schedule = list of session indices, of any length).  The variable is never
+   changed, every layer switch of every session is given that session's own
+   domain, and a session that has finished has exactly the result it has when
+   run alone. *)
+Theorem C02_servername_under_interleaving :
+  forall (sched : list nat) (ss : list sess),
+  let out := sched_run sched None (map (start_sess None) ss) in
+  fst out = None /\
+  Forall2 (fun s0 s =>
+             Forall (fun n => n = c_domain (s_cfg s0)) (server_names (m_tr (pstate (is_prog s)))) /\
+             (forall r, is_prog s = Done r -> r = run_sess None s0))
+          ss (snd out).
+Proof. exact servername_under_interleaving. Qed.
+Print Assumptions C02_servername_under_interleaving.
+
+(* ... for an explicit config too. *)
+Theorem C02_interleaving_changes_nothing :
+  forall (sched : list nat) fv (ss : list sess),
+  let out := sched_run sched fv (map (start_sess fv) ss) in
+  fst out = fv /\
+  Forall2 (fun s0 s =>
+             Forall (fun n => n = name_for (s_cfg s0) fv) (server_names (m_tr (pstate (is_prog s)))) /\
+             (forall r, is_prog s = Done r -> r = run_sess fv s0))
+          ss (snd out).
+Proof. exact interleaving_changes_nothing. Qed.
+Print Assumptions C02_interleaving_changes_nothing.
+
+(* At any granularity: no sequence of primitive steps of any model function
+   writes the captured variable; and, read from starttls.go on every run, the
+   Negotiate closure of StartTLS assigns to none of the variables it captures. *)
+Theorem C02_captured_state_never_written :
+  (forall c m m', evolves c m m' -> m_fv m' = m_fv m) /\ starttls_negotiate_writes = [].
+Proof. exact (conj no_step_writes_captured starttls_closure_writes_nothing). Qed.
+Print Assumptions C02_captured_state_never_written.
 
 (* ... and with an explicit config every handshake is given that config's name. *)
 Theorem C02_servername_is_configured :
@@ -132,9 +200,9 @@ Print Assumptions C02_tee_invariant.
    STARTTLS needs nothing and is prohibited once Secure, SASL needs Secure,
    resource binding needs Authn. *)
 Theorem C02_builtin_features_admitted :
-  forall hs dom,
-  c02_config (mkCfg [starttls_feature; sasl_feature; bind_feature] hs dom) = true /\
-  c02_config (mkCfg [bind_feature; sasl_feature; starttls_feature] hs dom) = true /\
+  forall hs dom loc orig,
+  c02_config (mkCfg [starttls_feature; sasl_feature; bind_feature] hs dom loc orig) = true /\
+  c02_config (mkCfg [bind_feature; sasl_feature; starttls_feature] hs dom loc orig) = true /\
   gated starttls_feature = true /\ gated sasl_feature = true /\ gated bind_feature = true.
 Proof. exact builtin_features_admitted. Qed.
 Print Assumptions C02_builtin_features_admitted.
@@ -142,10 +210,12 @@ Print Assumptions C02_builtin_features_admitted.
 (* The restart block of negotiateSession, as read from session.go on every run,
    is the one the model's [reset_stream] / [switch_layer] stand for: the
    advertised-features map and the negotiated map are each emptied, decoder and
-   encoder are renewed on the new connection. *)
+   encoder are renewed on the new connection, and both stream infos are reset
+   to their To/From before the negotiator is called again. *)
 Theorem C02_restart_block_as_modelled :
   clears (str "features") = true /\ clears (str "negotiated") = true /\
-  restart_renews_decoder = true /\ restart_renews_encoder = true.
+  restart_renews_decoder = true /\ restart_renews_encoder = true /\
+  mem (str "s.in.Info") restart_resets_info = true /\ mem (str "s.out.Info") restart_resets_info = true.
 Proof. exact restart_block_as_modelled. Qed.
 Print Assumptions C02_restart_block_as_modelled.
 
